@@ -126,8 +126,11 @@ def run_family(modname, tier, configs, jobs, max_execs=200000, seed=0, log=None,
     with the cap ``max_execs`` - as many of them (an even stride over the capped ones) as the
     budget allows.  Without a budget there is one phase with the cap ``max_execs``."""
     import multiprocessing as mp
+    import os
     import random
+    import time
 
+    deadline = float(os.environ.get("VERIF_DEADLINE") or "inf")
     mod, progs = _family(modname, tier)
     cov = {"programs": len(progs), "configurations": configs, "evaluations": 0,
            "max_decision_points": 0, "deadlock_outcomes": 0, "replay_checks": 0,
@@ -165,6 +168,9 @@ def run_family(modname, tier, configs, jobs, max_execs=200000, seed=0, log=None,
                     violations.append(doc)
             if len(violations) >= 40 or harness:
                 return False
+            if time.time() > deadline:
+                cov["time_budget_exhausted"] = True
+                return False
         return True
 
     try:
@@ -187,6 +193,8 @@ def run_family(modname, tier, configs, jobs, max_execs=200000, seed=0, log=None,
             pool.terminate()
             pool.join()
     cov["capped_programs"] = sum(1 for (_, c) in capped.values() if c)
+    if cov.get("time_budget_exhausted"):
+        cov["capped_programs"] += len(progs) * len(configs) - len(capped)
     devs = [d for (d, c) in capped.values() if c and d is not None]
     if devs:
         cov["capped_programs_complete_up_to_deviations"] = min(devs)
